@@ -152,8 +152,10 @@ def write_evidence(ctx, nviol):
     }
     if ctx.notes:
         ev["notes"] = ctx.notes
-    os.makedirs(os.path.join(VERIF, "evidence"), exist_ok=True)
-    path = os.path.join(VERIF, "evidence", "%s.json" % ctx.id)
+    # a run against a scratch tree (VERIF_REPO: seeded or behaviour-preserving changes) must not overwrite the evidence of /repo
+    edir = os.path.join(VERIF, "evidence") if REPO == "/repo" else os.path.join(VERIF, "evidence", "scratch")
+    os.makedirs(edir, exist_ok=True)
+    path = os.path.join(edir, "%s.json" % ctx.id)
     tmp = path + ".tmp"
     with open(tmp, "w") as f:
         json.dump(ev, f, indent=1, sort_keys=True, default=str)
